@@ -217,7 +217,9 @@ func e2eParse(line string) (*e2eCase, bool) {
 			var data string
 			switch ch.op {
 			case "INSERT", "UPDATE":
-				data = fmt.Sprintf("table %s: %s: id[integer]:%s v[text]:'row %s'", ch.rel, ch.op, ch.id, ch.id)
+				// the text value carries printf verbs and a backslash: a sink that formats a record instead of writing it
+				// must not change it
+				data = fmt.Sprintf("table %s: %s: id[integer]:%s v[text]:'row %s 100%% %%d %%s %%v \\n'", ch.rel, ch.op, ch.id, ch.id)
 			case "DELETE":
 				data = fmt.Sprintf("table %s: DELETE: id[integer]:%s", ch.rel, ch.id)
 			default:
@@ -632,6 +634,9 @@ func e2eItem(js string) (uint64, string) {
 		if !e2eDigits.MatchString(id) {
 			id = "x" + hexs(id)
 		}
+	}
+	if v, ok := e.Columns["v"][side]["v"]; ok && e2eDigits.MatchString(id) && v != "row "+id+" 100% %d %s %v \\n" {
+		id = "x" + hexs("v="+v) // the text column is not what was sent
 	}
 	return lsn, fmt.Sprintf("%s:%s:%d:%s", hexs(*e.Table), op, lsn, id)
 }
